@@ -76,7 +76,8 @@ PROPS = {
               'truncation preceded by the reverse rollback of the same slice; snapshot adoption restores the member set; refused changes are not appended and stored ones are '
               'applied on followers; add/remove perform all their bookkeeping effects.',
               ['quorum-overlap safety under interleavings (follows from the gate + C03/C04 by a paper argument)', 'operator discipline clauses'],
-              'dead-guard / def-use analysis, path-sensitive reachability with obligation nodes removed, effect multiset per path'),
+              'dead-guard / def-use analysis, path-sensitive reachability with obligation nodes removed, effect multiset per path',
+              thorough_rules=['L-dead-guard']),
     'C11': _p(['R-chunk-length', 'R-chunk-kinds', 'R-cmd-shapes', 'R-wire-schema', 'R-bounded-write'],
               'the chunk classifier uses the length of the sliced sequence and yields start, process*, finish for every size; sender kinds = receiver kinds with the right buffer effect '
               'per kind; command pack/unpack shapes agree and reserved keywords are removed before pickling; every key the handler reads is written by every consistent sender; journal write bounded.',
